@@ -587,13 +587,17 @@ class DBusObject :
                 r[p.pname] = v
 
         if interfaceName:
+            # the properties of one interface may be bound by several classes
+            # of the hierarchy; the most derived binding of a name wins
+            seen = set()
             for cache in self._iterIFaceCaches():
                 ifc = cache.get(interfaceName, None)
 
                 if ifc:
                     for p in ifc.properties.values():
-                        addp(p)
-                    break
+                        if p.pname not in seen:
+                            seen.add(p.pname)
+                            addp(p)
 
         else:
             for cache in self._iterIFaceCaches():
